@@ -96,7 +96,7 @@ func projectOnto(sys []Lin, keep Atom, env Env) ([]Lin, bool) {
 			for _, n := range neg {
 				kp, kn := p.Coef(best), -n.Coef(best)
 				g := gcd(kp, kn)
-				c := p.Scale(kn / g).AddMul(n, kp/g)
+				c := p.Scale(kn/g).AddMul(n, kp/g)
 				if c.Bad {
 					continue
 				}
@@ -165,6 +165,9 @@ func (ss *sideSys) entails(e Lin) bool {
 // Join computes an upper bound of A and B. live tells which atoms matter after
 // the join (others are dropped). With widen set, only constraints of A that
 // hold in B are kept (no relaxation, no new relations).
+// NoThresholds disables the threshold relaxation (set by the fixpoint driver after a few widening steps).
+var NoThresholds bool
+
 func Join(A, B *State, live func(Atom) bool, widen bool) *State {
 	if A == nil || A.dead {
 		if B == nil {
@@ -279,6 +282,26 @@ func Join(A, B *State, live func(Atom) bool, widen bool) *State {
 		}
 	}
 	if !widen {
+		// interval candidates for the changed atoms
+		for _, x := range knew {
+			ra, rb := A.Bounds(Var(x)), B.Bounds(Var(x))
+			if ra.HasLo && rb.HasLo {
+				lo := ra.Lo
+				if rb.Lo < lo {
+					lo = rb.Lo
+				}
+				addCand(Var(x).AddConst(-lo))
+			}
+			if ra.HasHi && rb.HasHi {
+				hi := ra.Hi
+				if rb.Hi > hi {
+					hi = rb.Hi
+				}
+				addCand(Const(hi).Sub(Var(x)))
+			}
+		}
+	}
+	if !widen {
 		// lockstep candidates for pairs of changed atoms with constant values/steps
 		for i := 0; i < len(knew); i++ {
 			for j := i + 1; j < len(knew); j++ {
@@ -306,12 +329,18 @@ func Join(A, B *State, live func(Atom) bool, widen bool) *State {
 	seen := map[string]bool{}
 	for _, c := range cands {
 		c = tighten(c, nil)
-		k := c.Key()
-		if seen[k+"#"+itoa(c.C)] {
+		hk := c.Key() + "#" + itoa(c.C)
+		if seen[hk] {
+			if eng.TraceJoin {
+				eng.trace("  join cand %s >= 0: DUP", eng.linStr(c))
+			}
 			continue
 		}
-		seen[k+"#"+itoa(c.C)] = true
+		seen[hk] = true
 		okA, okB := sa.entails(c), sb.entails(c)
+		if eng.TraceJoin {
+			eng.trace("  join cand %s >= 0: A=%v B=%v", eng.linStr(c), okA, okB)
+		}
 		if okA && okB {
 			J.ineq = append(J.ineq, c)
 			continue
@@ -319,7 +348,7 @@ func Join(A, B *State, live func(Atom) bool, widen bool) *State {
 		// thresholds: a single-atom bound that does not hold on both sides is
 		// replaced by the next threshold that does (in widening mode this is the
 		// only relaxation, which guarantees termination: the threshold set is finite)
-		if len(c.T) == 1 && (c.T[0].K == 1 || c.T[0].K == -1) && (!widen || okA) {
+		if len(c.T) == 1 && (c.T[0].K == 1 || c.T[0].K == -1) && (!widen || okA) && !(widen && NoThresholds) {
 			done := false
 			for _, th := range thresholds {
 				if th <= c.C {
@@ -419,6 +448,22 @@ func Join(A, B *State, live func(Atom) bool, widen bool) *State {
 			J.corr[k] = v
 		}
 	}
+	for k, v := range A.dirty {
+		J.dirty[k] = v
+	}
+	for k, v := range B.dirty {
+		if v > J.dirty[k] {
+			J.dirty[k] = v
+		}
+	}
+	for k, v := range A.loopEnter {
+		J.loopEnter[k] = v
+	}
+	for k, v := range B.loopEnter {
+		if w, ok := J.loopEnter[k]; !ok || v < w {
+			J.loopEnter[k] = v
+		}
+	}
 	J.touch()
 	return J
 }
@@ -464,15 +509,32 @@ func (s *State) SameAs(o *State) bool {
 			return false
 		}
 	}
-	// every ineq of each is entailed by the other
+	// every ineq of each is entailed by the other (syntactic check first)
+	syn := true
 	for _, c := range s.ineq {
-		if !Entails(o.ineq, c, o) {
-			return false
+		if !impliedSyntactically(o.ineq, c) {
+			syn = false
+			break
 		}
 	}
-	for _, c := range o.ineq {
-		if !Entails(s.ineq, c, s) {
-			return false
+	if syn {
+		for _, c := range o.ineq {
+			if !impliedSyntactically(s.ineq, c) {
+				syn = false
+				break
+			}
+		}
+	}
+	if !syn {
+		for _, c := range s.ineq {
+			if !Entails(o.ineq, c, o) {
+				return false
+			}
+		}
+		for _, c := range o.ineq {
+			if !Entails(s.ineq, c, s) {
+				return false
+			}
 		}
 	}
 	for k := range s.nonnil {
@@ -510,10 +572,10 @@ func (s *State) SameAs(o *State) bool {
 
 // thresholds for widening: 2^k-1, 2^k and a few protocol constants.
 var thresholds = func() []int64 {
-	set := map[int64]bool{0: true, 3: true, 4: true, 14: true, 16: true, 17: true, 31: true, 255: true}
-	for k := uint(1); k <= 40; k++ {
+	set := map[int64]bool{0: true, 3: true, 4: true, 14: true, 16: true, 17: true, 31: true, 255: true, 256: true,
+		65535: true, 65536: true, 1 << 24: true, 1<<32 - 1: true}
+	for k := uint(1); k <= 24; k++ {
 		set[int64(1)<<k-1] = true
-		set[int64(1)<<k] = true
 	}
 	var out []int64
 	for v := range set {
